@@ -283,3 +283,21 @@ Fixpoint index_of (x : N) (l : list N) : nat :=
 Definition canon_name (t : rty) (x : N) : N := N.of_nat (index_of x (uniq (tyvars t))).
 
 Definition canon (t : rty) : rty := rename_tyvars (canon_name t) t.
+
+(* ------------------------------------------------------------------ 4. positions in the VM's code map *)
+(* Every source text given to a VM is appended to ONE code map (src/query.rs add_module ->
+   base/src/source.rs CodeMap::add_filemap): the start position of a module is the end of the
+   texts added before it.  The parser names the binding of an implicit import `{ …, ? }`
+   `implicit?<p>`, p = position of the `?` (parser/src/grammar.lalrpop AtomicPattern), and
+   diagnostics print that name (`implicit?1072.num`).  [earlier] = lengths of the texts added to
+   the VM before the module, [gap] = the separation the code map leaves between two files,
+   [rel] = offset of the `?` inside the module's own text. *)
+Definition codemap_start (gap : nat) (earlier : list nat) : nat :=
+  fold_right (fun len acc => len + gap + acc) 1 earlier.
+
+(* what the implementation prints: absolute position *)
+Definition implicit_name_absolute (gap : nat) (earlier : list nat) (rel : nat) : nat :=
+  codemap_start gap earlier + rel.
+
+(* what a history-independent rendering prints: position inside the module *)
+Definition implicit_name_relative (gap : nat) (earlier : list nat) (rel : nat) : nat := rel.
